@@ -191,6 +191,18 @@ def correspond(prop):
                 return None
             runs.append((c, r))
             return r
+        # matches within matches on fixed inputs (kept first: their witnesses are small)
+        for ppat, code, key, spat, expect in cc.SUB_CORPUS:
+            pc = {"pattern": ppat, "code": code, "origin": "corpus:subparent", "setup": "code", "api": "find_matches",
+                  "spelling": "plain"}
+            pr = do(pc)
+            if pr is None or pr.exc is not None or not pr.matches or key not in pr.matches[0]["exps"]:
+                continue
+            for prev in (False, True):
+                do({"pattern": spat, "code": code, "origin": "corpus:sub", "setup": "code", "api": "sub",
+                    "spelling": "plain", "use_previous": prev, "parent_pattern": ppat, "parent_key": key,
+                    "sub_expect": expect},
+                   api="sub", anchor=pr.matches[0]["exps"][key], parent=pr.raw[0], key=key, use_previous=prev)
         for c in cases:
             r = do(c)
             if r is None:
@@ -224,6 +236,32 @@ def correspond(prop):
                     "mono_parent": c["pattern"], "mono_cross": cc.cross_field_pairs(r)})
         to_model = [(c, r) for c, r in runs if r.compare_model]
         answers = dict(zip((id(r) for _, r in to_model), driver.ask([r.request() for _, r in to_model])))
+        # is the derived case inside the domain of the C11 theorem?  (genCase, decided by the driver)
+        gen_cases_ = []
+        for c, r in runs:
+            d = c.get("derived")
+            if d is None or r.api == "sub":
+                continue
+            al = d.align
+            if al is None and d.base == "corpus" and r.exc is None and r.matches:
+                # hand-made corpus derivations carry no alignment: take the first real match's node pairs, and
+                # its exp_table for identifiers of the program that happen to look like __e__ placeholders
+                al = r.matches[0]["maps"]
+                d.exps = dict({k: (v, "", None) for k, v in r.matches[0]["exps"].items()}, **d.exps)
+            if al is None:
+                r.gen = "no-alignment"
+                continue
+            d.align = al
+            gen_cases_.append((r, d))
+        verdicts = driver.ask([d.gen_request(r.penc, r.senc) for r, d in gen_cases_])
+        again = [(r, d) for (r, d), a in zip(gen_cases_, verdicts)
+                 if a != "ok 1" and any(len(v) > 2 and v[2] is not None for v in d.exps.values())]
+        second = dict(zip((id(r) for r, _ in again),
+                          driver.ask([d.gen_request(r.penc, r.senc, statement_exps=False) for r, d in again])))
+        for (r, d), a in zip(gen_cases_, verdicts):
+            if a != "ok 1" and second.get(id(r)) == "ok 1":
+                a = "ok 1"
+            r.gen = "covered" if a == "ok 1" else a[5:] if a.startswith("ok 0 ") else a
         for c, r in runs:
             res.evaluations += 1
             res.count("origin:" + c["origin"].split(":")[0] + ":" + c["origin"].split(":")[-1])
@@ -428,7 +466,9 @@ def search_c11(rng, tier, broken, corr):
                     "consistent _var_ renaming and sibling dropping must give >= 1 match, one of which binds every "
                     "placeholder to what it replaced; a generalisation (same steps) of ANY pattern that matches must "
                     "still match; non-trivial = derivation with at least one step",
-            "samples": [], "steps": {}, "skips": STATE.get("skips", {})}
+            "samples": [], "steps": {}, "skips": STATE.get("skips", {}),
+            # derived cases for which the driver decided the hypotheses of c11_generalised_fragment_matches (genCase)
+            "theorem_domain": {}}
     failures = []
     bad = []
     for c, r in runs:
@@ -440,6 +480,10 @@ def search_c11(rng, tier, broken, corr):
             info["distinct_nontrivial"] += 1
         for s in d.steps:
             info["steps"][s.split(":")[0]] = info["steps"].get(s.split(":")[0], 0) + 1
+        g = getattr(r, "gen", None)
+        if g is not None:
+            info["theorem_domain"]["covered" if g == "covered" else "outside:" + g] = \
+                info["theorem_domain"].get("covered" if g == "covered" else "outside:" + g, 0) + 1
         why = cc.c11_verdict(d, r)
         if why is not None:
             bad.append((c, d, why))
